@@ -11,6 +11,8 @@ PROPS = {}
 
 PROPS["C16"] = {
     "streams": [{"name": "time"}],
+    "model_is_spec": ["time"],
+    "spec_theorem": "the model operators are exact integer arithmetic (C16 theorems)",
     "rule": "TIME stream: every public operator of Time/Duration/Interval/TimeInterval/WireTimestamp on bit patterns; "
             "boundary lattice (second/nanosecond carries, sign changes, 2^16/2^32/2^47/2^48/2^63/2^95/2^127 edges) crossed exhaustively, "
             "all 256 log intervals, plus seeded random operands with log-uniform magnitudes. distinct = distinct op lines; "
@@ -23,6 +25,8 @@ PROPS["C16"] = {
 
 PROPS["C04"] = {
     "streams": [{"name": "wire"}],
+    "model_is_spec": ["wire"],
+    "spec_theorem": "the model reads every field at its Clause 13 offset (C04.header_layout / body_layout)",
     "rule": "DEC stream: structured mostly-valid frames of all ten message types — every flag-field value (2^16) on Sync/Announce, "
             "every value of every single header/body octet (exhaustive per position), every messageLength value against several "
             "buffer lengths, 16-bit field sweeps, every TLV layout class (types, even/odd lengths, truncated, trailing 1..5 octets, "
@@ -44,6 +48,8 @@ INST_ASSUME = ["recording filter / clock / RNG stand in for the host's (Filter, 
 
 PROPS["C05"] = {
     "streams": [{"name": "cmp"}, {"name": "bmca"}, {"name": "inst"}],
+    "model_is_spec": ["cmp", "bmca", "inst"],
+    "spec_theorem": "the model's decision is Figure 33 (C05.decision_matches_spec) and its comparison is Figures 34/35 (CMP oracle)",
     "rule": "cmp: the data set comparison on explicit data sets — exhaustive over all pairs of a 480/960-element domain "
             "(priority1, priority2, [accuracy], GM identity, stepsRemoved 0/1/2/3/254, sender, receiver clock, receiving port) plus "
             "random data sets over the full field ranges; bmca: up to three masters (small-domain GM attributes, GM-consistent or "
